@@ -12,6 +12,7 @@ import (
 	"regexp"
 	"runtime"
 	"sort"
+	"strconv"
 	"strings"
 	"sync"
 	"testing"
@@ -484,7 +485,7 @@ func drawStorm(t *rapid.T) Case {
 	}
 	c := Case{Scenario: Scenario{Spec: s}}
 	ng := rapid.SampledFrom([]int{4, 8}).Draw(t, "goroutines")
-	relogin := rapid.IntRange(0, 2).Draw(t, "relogin") == 0
+	relogin := rapid.IntRange(0, 2).Draw(t, "relogin") == 0 || os.Getenv("C11_RELOGIN") != ""
 	for g := 0; g < ng; g++ {
 		prog := []Op{{K: "hammer", SPN: g * 480, Ms: 2000}}
 		if g == 0 && relogin {
@@ -529,7 +530,11 @@ func TestProp(t *testing.T) {
 	}
 	// renewal storms: the (TGT, session key) pair is renewed in place again and again while other goroutines read it
 	storm := map[int]bool{}
-	r.Rapid("storm-gen", r.N(6, 150), func(t *rapid.T) { storm[len(cases)] = true; cases = append(cases, drawStorm(t)) })
+	nStorm := r.N(6, 150)
+	if v, err := strconv.Atoi(os.Getenv("C11_STORMS")); err == nil {
+		nStorm = v // development aid
+	}
+	r.Rapid("storm-gen", nStorm, func(t *rapid.T) { storm[len(cases)] = true; cases = append(cases, drawStorm(t)) })
 	// scenarios run one at a time so that a race report can be attributed to its scenario
 	for i, c := range cases {
 		ng := len(c.Progs)
